@@ -25,6 +25,8 @@ pub open spec fn row_of(a: ExtendedAppointment) -> ApptRow {
 #[derive(Debug)]
 pub enum DbError { AlreadyExists, MissingForeignKey, MissingField, NotFound, Unknown }
 
+//@ transcribes teos-common/src/dbm.rs :: trait DatabaseConnection :: sha=be9604449006586e
+//@ transcribes teos/src/dbm.rs :: const TABLES :: sha=4ef8fc6b5faf3a7c
 pub struct DBM {
     pub ghost users: Map<UserId, UserInfo>,
     pub ghost appts: Map<UUID, ApptRow>,
@@ -37,6 +39,7 @@ impl DBM {
         &&& forall|u: UUID| #[trigger] self.trackers.contains_key(u) ==> self.appts.contains_key(u)
     }
     // INSERT INTO users
+//@ transcribes teos/src/dbm.rs :: impl DBM :: fn store_user :: sha=834b487d0eb4f8dc
     #[verifier::external_body]
     pub fn store_user(&mut self, user_id: UserId, user_info: &UserInfo) -> (r: Result<(), DbError>)
         ensures
@@ -47,6 +50,7 @@ impl DBM {
             },
     { unimplemented!() }
     // UPDATE users SET ... WHERE user_id
+//@ transcribes teos/src/dbm.rs :: impl DBM :: fn update_user :: sha=5a3e01bd14ebf07b
     #[verifier::external_body]
     pub fn update_user(&mut self, user_id: UserId, user_info: &UserInfo)
         ensures
@@ -54,16 +58,19 @@ impl DBM {
             final(self).users == (if old(self).users.contains_key(user_id) { old(self).users.insert(user_id, *user_info) } else { old(self).users }),
     { unimplemented!() }
     // SELECT locator FROM appointments WHERE user_id
+//@ transcribes teos/src/dbm.rs :: impl DBM :: fn load_user_locators :: sha=62eb5f6efd780c89
     #[verifier::external_body]
     pub fn load_user_locators(&self, user_id: UserId) -> (r: Vec<Locator>)
         ensures forall|l: Locator| r@.contains(l) <==> exists|u: UUID| #[trigger] self.appts.contains_key(u) && self.appts[u].user_id == user_id && self.appts[u].locator == l,
     { unimplemented!() }
     // SELECT * FROM users
+//@ transcribes teos/src/dbm.rs :: impl DBM :: fn load_all_users :: sha=8bf0dc33aa4d41c1
     #[verifier::external_body]
     pub fn load_all_users(&self) -> (r: HashMap<UserId, UserInfo>)
         ensures r@ == self.users,
     { unimplemented!() }
     // DELETE FROM users WHERE user_id IN (...)   [cascades to appointments and trackers]
+//@ transcribes teos/src/dbm.rs :: impl DBM :: fn batch_remove_users :: sha=80381e62cce5e3c2
     #[verifier::external_body]
     pub fn batch_remove_users(&mut self, users: &[UserId]) -> (r: usize)
         ensures
@@ -74,18 +81,21 @@ impl DBM {
             forall|u: UUID| final(self).trackers.contains_key(u) ==> #[trigger] final(self).trackers[u] == old(self).trackers[u],
     { unimplemented!() }
     // SELECT length(encrypted_blob) FROM appointments WHERE UUID
+//@ transcribes teos/src/dbm.rs :: impl DBM :: fn get_appointment_length :: sha=d83639ad349dede9
     #[verifier::external_body]
     pub fn get_appointment_length(&self, uuid: UUID) -> (r: Option<usize>)
         ensures r == (if self.appts.contains_key(uuid) { Some(self.appts[uuid].blob.len() as usize) } else { None::<usize> }),
                 self.appts.contains_key(uuid) ==> self.appts[uuid].blob.len() <= usize::MAX,
     { unimplemented!() }
     // SELECT user_id, length(encrypted_blob) FROM appointments WHERE UUID
+//@ transcribes teos/src/dbm.rs :: impl DBM :: fn get_appointment_user_and_length :: sha=db0a7659cea47c10
     #[verifier::external_body]
     pub fn get_appointment_user_and_length(&self, uuid: UUID) -> (r: Option<(UserId, usize)>)
         ensures r == (if self.appts.contains_key(uuid) { Some((self.appts[uuid].user_id, self.appts[uuid].blob.len() as usize)) } else { None::<(UserId, usize)> }),
                 self.appts.contains_key(uuid) ==> self.appts[uuid].blob.len() <= usize::MAX,
     { unimplemented!() }
     // DELETE FROM appointments WHERE UUID   [cascades to trackers]
+//@ transcribes teos/src/dbm.rs :: impl DBM :: fn remove_appointment :: sha=61db56e64c35f358
     #[verifier::external_body]
     pub fn remove_appointment(&mut self, uuid: UUID)
         ensures
@@ -94,6 +104,7 @@ impl DBM {
             final(self).trackers == old(self).trackers.remove(uuid),
     { unimplemented!() }
     // one transaction: DELETE FROM appointments WHERE UUID IN (...) [cascade]; UPDATE users SET available_slots WHERE user_id
+//@ transcribes teos/src/dbm.rs :: impl DBM :: fn batch_remove_appointments :: sha=dfb4defab656c62b
     #[verifier::external_body]
     pub fn batch_remove_appointments(&mut self, appointments: &[UUID], updated_users: &HashMap<UserId, UserInfo>) -> (r: usize)
         ensures
@@ -104,6 +115,7 @@ impl DBM {
                 (if updated_users@.contains_key(u) { UserInfo { available_slots: updated_users@[u].available_slots, ..old(self).users[u] } } else { old(self).users[u] }),
     { unimplemented!() }
     // INSERT INTO appointments   [PRIMARY KEY UUID, FOREIGN KEY user_id]
+//@ transcribes teos/src/dbm.rs :: impl DBM :: fn store_appointment :: sha=fb8780f92482363b
     #[verifier::external_body]
     pub fn store_appointment(&mut self, uuid: UUID, appointment: &ExtendedAppointment) -> (r: Result<(), DbError>)
         ensures
@@ -115,6 +127,7 @@ impl DBM {
             },
     { unimplemented!() }
     // UPDATE appointments SET encrypted_blob, to_self_delay, user_signature, start_block WHERE UUID
+//@ transcribes teos/src/dbm.rs :: impl DBM :: fn update_appointment :: sha=05f476a2cffdffb7
     #[verifier::external_body]
     pub fn update_appointment(&mut self, uuid: UUID, appointment: &ExtendedAppointment) -> (r: Result<(), DbError>)
         ensures
@@ -127,24 +140,29 @@ impl DBM {
             },
     { unimplemented!() }
     // SELECT ... FROM appointments WHERE UUID
+//@ transcribes teos/src/dbm.rs :: impl DBM :: fn load_appointment :: sha=41240ca8c1ab3c9b
     #[verifier::external_body]
     pub fn load_appointment(&self, uuid: UUID) -> (r: Option<ExtendedAppointment>)
         ensures match r { Some(a) => self.appts.contains_key(uuid) && row_of(a) == self.appts[uuid], None => !self.appts.contains_key(uuid) },
     { unimplemented!() }
+//@ transcribes teos/src/dbm.rs :: impl DBM :: fn appointment_exists :: sha=984555af7ae9d0c3
     #[verifier::external_body]
     pub fn appointment_exists(&self, uuid: UUID) -> (r: bool)
         ensures r == self.appts.contains_key(uuid),
     { unimplemented!() }
+//@ transcribes teos/src/dbm.rs :: impl DBM :: fn get_appointments_count :: sha=973685ac8f1f7300
     #[verifier::external_body]
     pub fn get_appointments_count(&self) -> (r: usize)
         ensures r == self.appts.len(),
     { unimplemented!() }
     // SELECT UUID FROM appointments WHERE locator
+//@ transcribes teos/src/dbm.rs :: impl DBM :: fn load_uuids :: sha=bb5cdbf9e0163186
     #[verifier::external_body]
     pub fn load_uuids(&self, locator: Locator) -> (r: Vec<UUID>)
         ensures r@.no_duplicates(), forall|u: UUID| r@.contains(u) <==> #[trigger] self.appts.contains_key(u) && self.appts[u].locator == locator,
     { unimplemented!() }
     // SELECT locator FROM appointments WHERE locator IN (...)   [one row per appointment: may repeat a locator]
+//@ transcribes teos/src/dbm.rs :: impl DBM :: fn batch_check_locators_exist :: sha=742076ab3d5173c4
     #[verifier::external_body]
     pub fn batch_check_locators_exist(&self, locators: Vec<&Locator>) -> (r: Vec<Locator>)
         ensures forall|l: Locator| r@.contains(l) <==> (exists|i: int| 0 <= i < locators@.len() && *#[trigger] locators@[i] == l) && (exists|u: UUID| #[trigger] self.appts.contains_key(u) && self.appts[u].locator == l),
